@@ -4,13 +4,18 @@
 #   1 patch applies to /repo HEAD and compiles;  2 the repo suite still passes with it;
 #   3 the demonstration fails with it and passes without it;  4 runs the registered
 # quick check of <PROP> against it.  Stores everything under /verif/seeded/<name>/.
+clean_scratch_build() { # removes the binaries and module copy that ./check built for a scratch tree
+  local suf; suf=$(echo "$1" | cksum | cut -d' ' -f1)
+  rm -rf /verif/.cache/bin/*-$suf /verif/.cache/bin/*-$suf.* /verif/.cache/mod-$suf
+}
+
 SRC=$1; PROP=$2; NAME=$3
 export GOFLAGS=-mod=mod GOPROXY=off GOSUMDB=off GOTOOLCHAIN=local
 WT=/tmp/vseed_$$
 OUT=/verif/seeded/$NAME
 log() { echo "[$NAME] $*"; }
 git -C /repo worktree add -q --detach $WT HEAD || exit 2
-cleanup() { git -C /repo worktree remove --force $WT 2>/dev/null; }
+cleanup() { git -C /repo worktree remove --force $WT 2>/dev/null; clean_scratch_build $WT; }
 trap cleanup EXIT
 if ! git -C $WT apply $SRC/patch.diff 2>/tmp/vseed_err_$$; then log "PATCH-DOES-NOT-APPLY: $(head -2 /tmp/vseed_err_$$)"; rm -f /tmp/vseed_err_$$; exit 3; fi
 rm -f /tmp/vseed_err_$$
